@@ -848,6 +848,7 @@ def oracle_C17(case: dict, real: dict, model: dict) -> List[str]:
     # lives there: a failure under such a tree is reported only with the takeover established on the real code at a
     # union the explanation can reach (through lists, tuples, maps, records); one it cannot reach is left undecided
     takeover_only = not idem_tree(case["v"], env)
+    same: List[str] = []
     if not defaults_accepted([case["v"]] + list(env), env):
         return out
     for m in MODES:
@@ -868,9 +869,23 @@ def oracle_C17(case: dict, real: dict, model: dict) -> List[str]:
                 out.append(f"{m}: the validator rejects its own payload ({r2['invalid']['err']['e']})" + _d25(case, env, real, o, m))
         elif norm(strip_ids(r2["valid"])) != norm(strip_ids(w)):
             out.append(f"{m}: re-validating the payload changed it" + _d25(case, env, real, o, m))
+        # "with the same validator": the instance that produced the payload re-validates it exactly as a freshly
+        # built one does (whatever that is - D25 included); a difference means the first call left something behind
+        try:
+            ctx = wire.Ctx()
+            rv = build.build(ctx, case["v"], env)
+            r1 = build.run_real(ctx, rv, wire.mk_value(ctx, real[m].get("xd") or real["xd"]), m)["out"]
+            if "valid" in r1:
+                r2s = build.run_real(ctx, rv, wire.mk_value(ctx, wire_fresh(r1["valid"])), m)["out"]
+                if norm(strip_ids(r2s)) != norm(strip_ids(r2)):
+                    same.append(f"{m}: the validator instance that produced the payload re-validates it differently from a "
+                                f"freshly built one: {json.dumps(norm(strip_ids(r2s)))[:100]} vs "
+                                f"{json.dumps(norm(strip_ids(r2)))[:100]}")
+        except Exception:  # noqa
+            pass
     if takeover_only:
         out = [f for f in out if "[explained-by:D25]" in f]
-    return out
+    return out + same
 
 
 def _d25(case: dict, env: List[dict], real: dict, o: dict, m: str) -> str:
@@ -1144,6 +1159,8 @@ def oracle_C04(case: dict, real: dict, model: dict) -> List[str]:
                     out.append(f"{m}: a key error is not the child's own Invalid")
             if any(ev[0] in ("oc", "aoc") for ev in real[m]["trace"] if ev_key(ev) not in child_ids):
                 out.append(f"{m}: whole-object check ran although a key failed")
+            if "missing" not in exp_children:
+                out += sibling_instance(v, env, x, m, o)
             continue
         if "invalid" in o and o["invalid"]["err"]["e"] == "keys":
             out.append(f"{m}: key errors reported although every key passes")
@@ -1157,6 +1174,41 @@ def oracle_C04(case: dict, real: dict, model: dict) -> List[str]:
             out.append(f"{m}: the built object is not constructed from exactly the children's payloads of the declared keys")
         elif got.get("oid", 0) != 0:
             out.append(f"{m}: the payload is not a newly built object")
+    return out
+
+
+def sibling_instance(v: dict, env: List[dict], x: dict, m: str, o: dict) -> List[str]:
+    """every declared key's value is validated by *this* validator's child for that key: a second validator for the
+    same target class (same process, same class object) whose children accept everything accepts the input the first
+    rejected for its values - and building it does not change what the first one answers"""
+    if isinstance(v.get("coerce"), dict):
+        return []
+    v2 = copy.deepcopy(v)
+    v2["vid"] = 88000
+    # (RecordValidator marks an optional key by a KeyNotRequired child: kept)
+    v2["vals"] = [{"k": "knr", "vid": 89001 + i, "inner": {"k": "always", "vid": 88001 + i}} if cv.get("k") == "knr"
+                  else {"k": "always", "vid": 88001 + i} for i, cv in enumerate(v["vals"])]
+    v2["oc"] = None
+    v2["aoc"] = None
+    out: List[str] = []
+    try:
+        for order in ("first-then-sibling", "sibling-then-first"):
+            ctx = wire.Ctx()
+            if order == "first-then-sibling":
+                ra, rb = build.build(ctx, v, env), build.build(ctx, v2, env)
+            else:
+                rb, ra = build.build(ctx, v2, env), build.build(ctx, v, env)
+            ob = build.run_real(ctx, rb, wire.mk_value(ctx, x), m)["out"]
+            oa = build.run_real(ctx, ra, wire.mk_value(ctx, x), m)["out"]
+            if "valid" not in ob:
+                out.append(f"{m}: a second {v['kind']} validator for the same target, whose field validators accept everything, "
+                           f"rejects the input ({order}): a declared key is not validated by its own validator; it answered {json.dumps(ob)[:300]}")
+            if norm(strip_ids(oa)) != norm(strip_ids(o)):
+                out.append(f"{m}: the validator answers differently once a second validator for the same target exists ({order})")
+            if out:
+                break
+    except Exception:  # noqa
+        return []
     return out
 
 
